@@ -161,3 +161,83 @@ pub fn quiet_panics() {
 pub fn hex(b: &[u8]) -> String {
   hex::encode(b)
 }
+
+
+// ---------------------------------------------------------------------------
+// watchdog: an `Index::update()` that does not return is a verdict, not a hang of the check
+
+use std::sync::OnceLock;
+
+struct WatchEntry {
+  started: Option<std::time::Instant>,
+  context: String,
+}
+
+static WATCH: OnceLock<Mutex<std::collections::HashMap<std::thread::ThreadId, WatchEntry>>> = OnceLock::new();
+static WATCH_PROPERTY: OnceLock<String> = OnceLock::new();
+
+/// longest time one guarded call may take before the run is ended with a violation
+pub const WATCH_LIMIT_SECS: u64 = 240;
+
+fn watch_map() -> &'static Mutex<std::collections::HashMap<std::thread::ThreadId, WatchEntry>> {
+  WATCH.get_or_init(|| Mutex::new(std::collections::HashMap::new()))
+}
+
+/// Describes what the current thread is executing (used if a guarded call never returns).
+pub fn set_context(context: String) {
+  let mut m = watch_map().lock().unwrap();
+  let e = m.entry(std::thread::current().id()).or_insert(WatchEntry { started: None, context: String::new() });
+  e.context = context;
+}
+
+/// Starts the watchdog thread for `property`.
+pub fn start_watchdog(property: &str) {
+  if WATCH_PROPERTY.set(property.to_string()).is_err() {
+    return;
+  }
+  std::thread::spawn(|| {
+    loop {
+      std::thread::sleep(std::time::Duration::from_secs(2));
+      let stuck: Option<(u64, String)> = {
+        let m = watch_map().lock().unwrap();
+        m.values()
+          .filter_map(|e| e.started.map(|s| (s.elapsed().as_secs(), e.context.clone())))
+          .filter(|(secs, _)| *secs >= std::env::var("VERIF_WATCH_SECS").ok().and_then(|v| v.parse().ok()).unwrap_or(WATCH_LIMIT_SECS))
+          .max_by_key(|(secs, _)| *secs)
+      };
+      if let Some((secs, context)) = stuck {
+        let property = WATCH_PROPERTY.get().cloned().unwrap_or_default();
+        let dir = std::path::PathBuf::from(crate::evidence::VERIF).join("replays").join(&property);
+        let _ = std::fs::create_dir_all(&dir);
+        let path = dir.join(format!("index-stuck_update_hang-{}.json", sha256_hex(context.as_bytes()).chars().take(12).collect::<String>()));
+        let body = serde_json::json!({
+          "property": property,
+          "class": "index-stuck/update/hang",
+          "what": format!("Index::update() did not return within {secs} s"),
+          "replay": serde_json::from_str::<serde_json::Value>(&context).unwrap_or(serde_json::Value::String(context.clone())),
+        });
+        let _ = std::fs::write(&path, serde_json::to_string_pretty(&body).unwrap());
+        println!("VIOLATION property={property} replay={}", path.display());
+        println!("  class: index-stuck/update/hang");
+        println!("  what:  Index::update() did not return within {secs} s while executing {context}");
+        println!("FAIL property={property} (run ended by the watchdog; no evidence file written)");
+        std::process::exit(1);
+      }
+    }
+  });
+}
+
+/// Runs `f` (an `Index::update()` call) under the watchdog.
+pub fn watched<R>(f: impl FnOnce() -> R) -> R {
+  let id = std::thread::current().id();
+  {
+    let mut m = watch_map().lock().unwrap();
+    let e = m.entry(id).or_insert(WatchEntry { started: None, context: String::new() });
+    e.started = Some(std::time::Instant::now());
+  }
+  let r = f();
+  if let Some(e) = watch_map().lock().unwrap().get_mut(&id) {
+    e.started = None;
+  }
+  r
+}
